@@ -14,13 +14,13 @@ ID = 'C02'
 RULE = ('cases = (abbreviation built from a written tree with repeaters, maxRepeat); enumerated: N in 1..6 x width 1..4 x base in {none,0,1,3,12} x '
         'reverse on/off x repeater placement (self / group / ancestor / group inside repeated parent) x site kind (name, class, id, unquoted and quoted '
         'attribute value, attribute name, text); every maxRepeat 1..total+1 for all nestings of <= 3 repeaters with counts 1..3 (1..4 in thorough; elements and groups); '
-        'random trees nesting <= 4, N <= 12, <= 2000 copies, random limits. Non-trivial = at least one repeater with N >= 2; distinct by (abbreviation, maxRepeat)')
+        'random trees nesting <= 4, N <= 101, <= 700 output elements, random limits. Non-trivial = at least one repeater with N >= 2; distinct by (abbreviation, maxRepeat)')
 ASSUMPTIONS = ['counter of copy i of N: $ -> i, zero padded to the run width, @M -> M+i-1, @- -> N-i+1, @-M -> M+N-i; nearest enclosing repeater (self included), 1 when none',
                'maxRepeat M: every completed copy (children first, document order) uses one unit of a global budget; a repeater stops after the copy at whose '
                'completion the budget is exhausted; repeaters met later yield one copy',
                'under a truncating limit only copy counts and forward numbering are compared (the statement defines reverse numbering for complete repeaters)',
                '*0, @^ (parent numbering) and numbering modifiers without any repeater are outside the statement and not generated']
-FLOORS = {'quick': {'enum:numbering': 6000, 'enum:limit': 5000, 'random': 3000, 'random:limit': 3000},
+FLOORS = {'quick': {'enum:numbering': 6000, 'enum:limit': 5000, 'random': 2400, 'random:limit': 3000},
           'thorough': {'enum:numbering': 6000, 'enum:limit': 28000, 'random': 100000, 'random:limit': 100000}}
 REQUIRED_MONITORS = ['oracle:copies-and-counters', 'probe:repeat-guard-monotone', 'probe:repeater-stack-balanced']
 
@@ -290,6 +290,9 @@ def limit_cases(counts_range=(1, 2, 3)):
                         yield nodes, m
 
 
+REPS = {'pool': [1, 2, 2, 3, 3, 4, 5, 7, 12]}
+
+
 def rand_tree(rng, depth=0, counter=None, copies=None):
     nodes = []
     for _ in range(rng.randint(1, 3)):
@@ -307,7 +310,7 @@ def rand_tree(rng, depth=0, counter=None, copies=None):
             if depth < 4 and rng.random() < 0.45:
                 n.ch = rand_tree(rng, depth + 1, counter, copies)
         if rng.random() < 0.45:
-            n.rep = rng.choice([1, 2, 2, 3, 3, 4, 5, 7, 12])
+            n.rep = rng.choice(REPS['pool'])
         nodes.append(n)
     return nodes
 
@@ -382,16 +385,17 @@ def run_shard(desc, ctx):
                 mon.check(abbr, exp, trunc, m, 'enum:limit')
         else:
             rng = ctx.rng
+            REPS['pool'] = [1, 2, 2, 3, 3, 4, 5, 7, 12] * (8 if ctx.tier == 'quick' else 3) + [13, 16, 25, 40, 101]
             done = 0
             while done < desc['n']:
                 counter = itertools.count(1)
                 nodes = rand_tree(rng, 0, counter)
                 strip_mods_without_repeater(nodes)
                 full = simulate(nodes, None, None, [False])
-                if sum(1 for x in full if x[0] == 'open') > 2000:
+                if sum(1 for x in full if x[0] == 'open') > 700:
                     continue
                 done += 1
-                m = rng.choice([None, None, None, None, None, 1, 2, 3, 5, 8, 13, 21, 50])
+                m = rng.choice([None, None, None, None, None, 1, 2, 3, 5, 8, 13, 21, 50, 99, 100, 250])
                 abbr, exp, trunc = tree_case(nodes, m)
                 mon.check(abbr, exp, trunc, m, 'random:limit' if m else 'random')
     finally:
